@@ -16,6 +16,8 @@ def gen_histories(rng, keys, n_hist, n_ops, opts):
     for _ in range(n_hist):
         r = rng.fork()
         accts, perms, admins = hist.std_config(keys, nacct=opts.get("nacct", 5))
+        if "admins" in opts:
+            admins = r.choice(opts["admins"])
         raws = opts.get("raws", lambda r, accts: [])(r, accts)
         cfg = hist.config_lines(accts, perms, admins, raws)
         g = hist.HistGen(r, accts, opts)
